@@ -55,7 +55,7 @@ pub struct FlopExhaustiveEvaluatorIterator {
     current_used_cards: HashSet<Card, FxBuildHasher>,
     current_turn_index: u8,
     current_river_index: u8,
-    current_player_indexes: Vec<u8>,
+    current_player_indexes: Vec<usize>,
 }
 
 impl FlopExhaustiveEvaluatorIterator {
@@ -125,7 +125,7 @@ impl Iterator for FlopExhaustiveEvaluatorIterator {
         let mut is_materialized = true;
 
         for (player_index, player_entry) in self.player_entries.iter().enumerate() {
-            let entry = player_entry[self.current_player_indexes[player_index] as usize];
+            let entry = player_entry[self.current_player_indexes[player_index]];
 
             if self.current_used_cards.contains(&entry.0[0])
                 || self.current_used_cards.contains(&entry.0[1])
@@ -158,7 +158,7 @@ impl Iterator for FlopExhaustiveEvaluatorIterator {
         for i in 0..self.current_player_indexes.len() {
             let ri = self.current_player_indexes.len() - i - 1;
 
-            if self.current_player_indexes[ri] < self.player_entries[ri].len() as u8 - 1 {
+            if self.current_player_indexes[ri] < self.player_entries[ri].len() - 1 {
                 player_index_to_increment = Some(ri);
 
                 break;
